@@ -23,7 +23,7 @@ LEVEL_TEXT = ("Base scenarios with depth-dependent sheared, time-dependent curre
 LEVEL_NOTE = "Equality is on f8 output, so 'bit for bit' is exact. Trusts the row tag column (an int instance variable) to follow the particle (C05)."
 RULE = ("case = base scenario + variant list. Non-trivial: at least one particle placed behind a removed/killed one in the state arrays survives for >= 3 further records "
         "(the cross-talk pattern); distinct by base parameters.")
-MANDATORY = ["reversed_time", "subgrid_off_diagonal", "float_day_time_axis", "repeat_pairs", "subset_pairs", "added_rows_pairs", "permuted_pairs", "killed_others_pairs", "time_shift_pairs", "deactivated_others_pairs", "empty_state_before_late_release_pairs", "death_then_output",
+MANDATORY = ["lonlat_release_pairs", "reversed_time", "subgrid_off_diagonal", "float_day_time_axis", "repeat_pairs", "subset_pairs", "added_rows_pairs", "permuted_pairs", "killed_others_pairs", "time_shift_pairs", "deactivated_others_pairs", "empty_state_before_late_release_pairs", "death_then_output",
              "trajectory_points_compared", "dense", "sparse", "survivor_behind_removed"]
 ASSUMPTIONS = ["diffusion off (as the property states)"]
 TIMEOUT = {"quick": 900, "thorough": 3400}
@@ -31,7 +31,58 @@ TIMEOUT = {"quick": 900, "thorough": 3400}
 
 def gen_cases(tier: str, seed: int) -> list[dict[str, Any]]:
     n = 48 if tier == "quick" else 2500
-    return [dict(seed=seed, idx=i, nvar=4 if tier == "quick" else 6) for i in range(n)]
+    cases = [dict(seed=seed, idx=i, nvar=4 if tier == "quick" else 6) for i in range(n)]
+    # releases given by longitude/latitude on a curvilinear grid: a row's start position must not depend on the other rows
+    cases += [dict(seed=seed, idx=i, kind="lonlat") for i in range(12 if tier == "quick" else 400)]
+    return cases
+
+
+def run_lonlat(case: dict[str, Any], wd: Path) -> dict[str, Any]:
+    from vmon import world as W  # noqa: PLC0415
+    from vmon.props.C16 import polar_spec  # noqa: PLC0415
+
+    rng = C.rng_for(case["seed"], 142, case["idx"])
+    imax, jmax = int(rng.integers(16, 30)), int(rng.integers(14, 24))
+    pol = polar_spec(rng, imax, jmax)
+    dt = 600
+    w = dict(imax=imax, jmax=jmax, N=2, t0=str(tadd(C.T0, -dt)), frames=[0, 10 * dt], files=[2], vel=dict(kind="const", u=0.1, v=0.05), metric=pol, lonlat=pol)
+    n = int(rng.integers(6, 14))
+    X = rng.uniform(3.0, imax - 4.0, size=n)
+    Y = rng.uniform(3.0, jmax - 4.0, size=n)
+    lon, lat = W.polar_lonlat(X, Y, pol)
+    rows = [dict(rid=k + 1, lon=float(lon[k]), lat=float(lat[k])) for k in range(n)]
+    V: list = []
+    sit: dict[str, int] = {}
+    cnt: dict[str, int] = {}
+    desc = dict(kind="lonlat", idx=case["idx"], grid=[imax, jmax], rows=n)
+
+    def run(tag, rws):
+        rel = [[C.T0, r["lon"], r["lat"], 1.0, r["rid"]] for r in rws]
+        r_ = dict(start=C.T0, stop=str(tadd(C.T0, 3 * dt)), dt=dt, advection="EF", release=dict(columns=["release_time", "lon", "lat", "Z", "rid"], rows=rel, header=True),
+                  state=dict(instance_variables=dict(rid="int")), output=dict(period=dt, instance=dict(pid="i4", X="f8", Y="f8", Z="f8", rid="i4")))
+        res, conf, _w = run_scenario(dict(world=w, run=r_), wd / tag)
+        if not res.ok:
+            V.append(C.viol(f"lon/lat release variant '{tag}' did not complete: {res.exc}", **desc))
+            return None
+        recs = all_records(read_outputs(res.outputs))
+        return {int(rid): [(float(r.vars["X"][k]), float(r.vars["Y"][k])) for r in recs for k in np.nonzero(np.asarray(r.vars["rid"]) == rid)[0]] for rid in recs[0].vars["rid"]}
+
+    base = run("base", rows)
+    if base:
+        for tag, rws in (("one row alone", rows[:1]), ("half of the rows", rows[::2]), ("rows reversed", rows[::-1]), ("last rows only", rows[-2:])):
+            o = run(tag.replace(" ", "_"), rws)
+            if not o:
+                continue
+            for r in rws:
+                sit["lonlat_release_pairs"] = sit.get("lonlat_release_pairs", 0) + 1
+                if base.get(r["rid"]) != o.get(r["rid"]):
+                    a, b_ = base[r["rid"]][0], o[r["rid"]][0]
+                    V.append(C.viol(f"release by lon/lat, {tag}: row {r['rid']} (lon {r['lon']:.6f}, lat {r['lat']:.6f}) starts at ({b_[0]!r},{b_[1]!r}) but at ({a[0]!r},{a[1]!r}) "
+                                    f"when released together with all {n} rows: its trajectory depends on the other release rows", **desc))
+                    break
+            if V:
+                break
+    return C.result(V[:2], sit, cnt, nontrivial=True, key=f"lonlat|{case['idx']}", sample=desc)
 
 
 def base_spec(case: dict[str, Any]):
@@ -113,6 +164,8 @@ def trajectories(recs, start: str, dt: int):
 
 
 def run_case(case: dict[str, Any], wd: Path) -> dict[str, Any]:
+    if case.get("kind") == "lonlat":
+        return run_lonlat(case, wd)
     b = base_spec(case)
     rng = C.rng_for(case["seed"], 141, case["idx"])
     V: list = []
